@@ -159,7 +159,6 @@ def parse_streams(run, model, vh, quick):
 
 
 KEY_COLON = "parseLine:colon-without-dot"
-KEY_BEGIN_END = "inline-begin-end:id-not-compared"
 
 
 def pairing_stream(run, model, vh, quick):
@@ -338,7 +337,7 @@ def documented_forms(run):
         run.count(stream, None, nontrivial="begin uninitvar / end nullPointer", bucket="holds" if ok else "deviates")
         if not ok:
             run.stream(stream)["disagreements"] += 1
-            run.violation(KEY_BEGIN_END, "'-begin uninitvar' ... '-end nullPointer' hides the nullPointer finding of the block and reports nothing invalid (rc %d, output %r)" % (rc, out[:200]),
+            run.violation("inline-begin-end:" + "id-not-compared", "'-begin uninitvar' ... '-end nullPointer' hides the nullPointer finding of the block and reports nothing invalid (rc %d, output %r)" % (rc, out[:200]),
                           {"files": {"f.c": "void f(void) {\n    int *p = 0;\n    // cppcheck-suppress-begin uninitvar\n    *p = 1;\n    // cppcheck-suppress-end nullPointer\n}\n"},
                            "how": "cppcheck -q --inline-suppr f.c   (prints nothing; without the two comments: nullPointer at f.c:4)"})
     finally:
